@@ -48,6 +48,12 @@ TrunkOK(st, arg, style, modal) ==
 OpenIsExactlyUnclosed(st) ==
   /\ NoDup(st.open)
   /\ SeqSet(st.open) = {i \in 0..(NBr(st) - 1) : Br(st, i).closed = 0}
+  \* the view says the same through every access path: reverse iteration, length, indexing, membership
+  /\ st.open_rev = [k \in 1..Len(st.open) |-> st.open[Len(st.open) + 1 - k]]
+  /\ st.open_len = Len(st.open)
+  /\ st.open_item = st.open
+  /\ st.open_last = (IF st.open = <<>> THEN -1 ELSE st.open[Len(st.open)])
+  /\ st.open_member = [k \in 1..NBr(st) |-> IF Br(st, k - 1).closed = 0 THEN 1 ELSE 0]
 
 ClosedMeansClosureLeaf(st) ==
   \A i \in 0..(NBr(st) - 1) :
